@@ -127,7 +127,8 @@ func checkVerifyCosmosHeader(c *core.Ctx, sp tmSpec) {
 	defer release()
 	for _, st := range sites {
 		if b := st.B; b.Op == token.LEQ || b.Op == token.GTR {
-			if _, isPhi := ir.Resolve(b.X).(*ssa.Phi); isPhi {
+			if p, _, rel := phiVia(ir.Resolve(b.X), st.Host); p != nil {
+				rel()
 				thr, thrSite = b, st
 			}
 		}
@@ -146,17 +147,21 @@ func checkVerifyCosmosHeader(c *core.Ctx, sp tmSpec) {
 	c.Decide(ok, "C30.power-threshold", fn, "accepted iff tallied power > ⌊2·total/3⌋", c.P.Rel(thr.Pos()), why)
 	eng.Dominates(c, "C30.power-threshold", fn, siteGuard("tallied > ⌊2·total/3⌋", thrSite, thr.Op == token.GTR), succ, "nil return", nil)
 
-	// tally loop
-	tally := ir.Resolve(thr.X).(*ssa.Phi)
+	// tally loop (in fn, or in the helper that returns the tally)
+	tally, tfn, releaseTally := phiVia(ir.Resolve(thr.X), thrSite.Host)
+	defer releaseTally()
+	if tfn != fn {
+		c.Attribute(tfn, fn)
+	}
 	var incs []ir.Sink
 	for _, e := range eng.PhiLeaves(nil, tally) {
 		if b, ok := e.(*ssa.BinOp); ok && b.Op == token.ADD {
 			incs = append(incs, ir.Sink{Instr: b, Note: "tally += power"})
-			c.Decide(isFieldNamed(b.Y, "VotingPower") || isFieldNamed(b.X, "VotingPower"), "C30.tally", fn, "the tally grows by a validator's VotingPower", c.P.Rel(b.Pos()), "")
+			c.Decide(isFieldNamed(b.Y, "VotingPower") || isFieldNamed(b.X, "VotingPower"), "C30.tally", tfn, "the tally grows by a validator's VotingPower", c.P.Rel(b.Pos()), "")
 		}
 	}
 	if len(incs) != 1 {
-		c.Broken("C30.tally", fn, "tally increment", c.P.Rel(thr.Pos()), sprintf("%d increments", len(incs)))
+		c.Broken("C30.tally", tfn, "tally increment", c.P.Rel(thr.Pos()), sprintf("%d increments", len(incs)))
 		return
 	}
 	hdr := tally.Block()
@@ -166,7 +171,7 @@ func checkVerifyCosmosHeader(c *core.Ctx, sp tmSpec) {
 		body = hdr.Succs[0]
 	}
 	if body == nil {
-		c.Broken("C30.tally", fn, "tally loop", c.P.Rel(thr.Pos()), "loop header not recognised")
+		c.Broken("C30.tally", tfn, "tally loop", c.P.Rel(thr.Pos()), "loop header not recognised")
 		return
 	}
 	verified := eng.NamedGuard{Name: "val.PubKey.VerifyBytes(signBytes, sig) == true", G: ir.BoolIs(func(cl *ssa.Call) bool {
@@ -178,8 +183,8 @@ func checkVerifyCosmosHeader(c *core.Ctx, sp tmSpec) {
 		return o != nil && o.Name() == "Equals" && strings.Contains(o.FullName(), "BlockID")
 	}, true)}
 	opt := &eng.Opt{StartBlock: body}
-	eng.Dominates(c, "C30.tally", fn, verified, incs, "tally += power (per iteration)", opt)
-	eng.Dominates(c, "C30.tally", fn, sameBlock, incs, "tally += power (per iteration)", opt)
+	eng.Dominates(c, "C30.tally", tfn, verified, incs, "tally += power (per iteration)", opt)
+	eng.Dominates(c, "C30.tally", tfn, sameBlock, incs, "tally += power (per iteration)", opt)
 	// every non-absent entry is signature-checked: an iteration completes only via the absent edge or VerifyBytes true
 	absent := func(cd ir.Cond) (bool, bool) {
 		if cl := calleeNamed(cd.V, "Absent"); cl != nil {
@@ -191,8 +196,8 @@ func checkVerifyCosmosHeader(c *core.Ctx, sp tmSpec) {
 		}
 		return false, false
 	}
-	eng.IterationMustPass(c, "C30.tally", fn, hdr, body, "range commit entries", eng.NamedGuard{Name: "entry absent ∨ signature verified", G: ir.Or(absent, verified.G)})
-	checkOneValidatorPerSlot(c, fn, incs[0].Instr.(*ssa.BinOp), hdr)
+	eng.IterationMustPass(c, "C30.tally", tfn, hdr, body, "range commit entries", eng.NamedGuard{Name: "entry absent ∨ signature verified", G: ir.Or(absent, verified.G)})
+	checkOneValidatorPerSlot(c, tfn, incs[0].Instr.(*ssa.BinOp), hdr)
 }
 
 func checkTmSync(c *core.Ctx, sp tmSpec) {
